@@ -527,8 +527,9 @@ def check_pickle(ctx, w, rng, log):
             elif r < 0.55: dumps('list', objs, ('entities', [(en, x) for x in raws]))
             elif r < 0.75:
                 q = w.E[en].select()
-                qr = q[:] if rng.random() < 0.5 else q
-                dumps('QueryResult' if qr is not q else 'Query', qr, ('entity-set', [(en, x) for x in raws]))
+                r2 = rng.random()
+                qr = q[:] if r2 < 0.35 else q.page(1, 50) if r2 < 0.65 else q        # page() gives a LAZY QueryResult: pickling has to fetch it
+                dumps('QueryResult' if r2 < 0.35 else 'QueryResult-lazy' if r2 < 0.65 else 'Query', qr, ('entity-set', [(en, x) for x in raws]))
             else:
                 E_ = w.E[en]
                 q = select(x for x in E_)
@@ -670,7 +671,7 @@ def attrs_tie(ctx):
                 if r < 0.3: return None, None
                 toks = [rng.choice(names + ['nope'] if rng.random() < 0.15 else names) for _ in range(rng.choice([1, 1, 2, 3]))]
                 if r < 0.4: return '', ''
-                if r < 0.45: return (), []
+                if r < 0.45: return ((), []) if rng.random() < 0.5 else ([], [])
                 if r < 0.7:
                     text = rng.choice([' ', ',', ', ', '  ']).join(toks)
                     if rng.random() < 0.3: text = ' ' + text + ', '
